@@ -21,6 +21,18 @@ CHECKS = {
    text="Decides one necessary clause: the rebroadcast set is committed and compared - in consensus mode every accepting path of Block::validate passes cv.rebroadcast_hash == self.rebroadcast_hash and cv.total_rebroadcast_slips == self.total_rebroadcast_slips, and Block::generate accumulates both header values only under the ATR arm of the match on transaction type. Does not decide which outputs are eligible, ownership, amounts, or expiry across histories.",
    note=TRUST,
    technique="static analysis: must-pass-through over the MIR CFG; control-dependence of field writes on an enum arm"),
+ "C14": dict(level="other",
+   text="Decides that the pool and its reservation index move together on every path: each site removing pooled transactions releases their inputs in utxo_map before any success exit (a loop over the removed transactions counts from its header; a retain-style closure may release inside), each inserting site reserves them, and bundle_block has no failure exit between draining the pool and returning. Necessary for 'an unspent output that no pooled transaction spends can always be spent' and for the bundling clause; does not decide pool/ledger consistency over interleavings. One genuine defect (non-atomic bundling on Block::create failure) is recorded as a known finding.",
+   note=TRUST,
+   technique="static analysis: field-mutation sites (incl. &mut passed to callees and closure upvars) + path exploration to exits over the MIR CFG"),
+ "C17": dict(level="other",
+   text="Decides the code-shape part of handshake authentication: who may mark a peer connected / record its key / index it by key (frozen table), that in the one network handler both writes are dominated by the true edge of verify(self.challenge_for_peer, response.signature, response.public_key) with the recorded key being the verified one, that the Network level indexes the peer only after an Ok result, that every Ok path clears the used challenge, and that issued challenges are fresh random bytes. Does not decide relay/reflection across connections or attacker interleavings (protocol state space).",
+   note=TRUST,
+   technique="static analysis: who-may-write field analysis, dominance by a verified edge, path exploration to Ok exits"),
+ "C19": dict(level="other",
+   text="Decides the structural clause that balance and unspent list are co-mutated: every body that inserts into / removes from / clears Wallet.unspent_slips also adds to / subtracts from / zeroes available_balance and vice versa (closures' captured fields resolved), and nothing outside impl Wallet can write the balance. Necessary for 'available balance equals the sum of the outputs listed as unspent'; does not decide amounts, agreement with the ledger or event orders.",
+   note=TRUST,
+   technique="static analysis: per-body field co-mutation over MIR (field-mutation classification, arithmetic direction of balance writes)"),
  "C01": dict(level="other",
    text="Decides the structural clause 'validation gates acceptance' on every path: each verdict (Transaction/Slip/Block/Blockchain::validate, signature and golden-ticket checks) computed on the acceptance chain, when it rejects, reaches no accept outcome of its consumer; nothing inserts into the pool around validation; Transaction::validate's accept paths for non-privileged types pass the signature check. A necessary condition of every clause of C01 - not the behaviour: it does not decide that the verdict functions compute the right answer.",
    note=TRUST,
